@@ -367,6 +367,20 @@ func (w *c24World) setProposal(fact isaac.ProposalFact, x c24Triple, how string)
 	w.checkByPoint(x, "after "+w.log[len(w.log)-1])
 }
 
+// cleanupClass records which side of the depth boundary a cleanup ran on (top = newest height in the model, -1 = empty).
+func (w *c24World) cleanupClass(kind string, top int64) {
+	switch {
+	case top < 0:
+		w.classes["cleanup:"+kind+":empty"] = true
+	case top < c24Depth:
+		w.classes["cleanup:"+kind+":newest-below-depth"] = true // nothing may be removed
+	case top < 2*c24Depth:
+		w.classes[fmt.Sprintf("cleanup:%s:newest=%d", kind, top)] = true // the first removable heights
+	default:
+		w.classes["cleanup:"+kind+":newest-far-above-depth"] = true
+	}
+}
+
 // cleanup runs one of the two cleanup steps and judges what vanished.
 func (w *c24World) cleanup(kind string) {
 	switch kind {
@@ -384,6 +398,8 @@ func (w *c24World) cleanup(kind string) {
 		}
 
 		w.log = append(w.log, fmt.Sprintf("cleanBallots=%d(top %d)", n, top))
+
+		w.cleanupClass("ballots", top)
 
 		for k := range w.ballots {
 			_, found, err := w.pool.Ballot(k.point(), k.stage, k.sc)
@@ -419,6 +435,8 @@ func (w *c24World) cleanup(kind string) {
 
 		w.log = append(w.log, fmt.Sprintf("cleanProposals=%d(top %d)", n, top))
 
+		w.cleanupClass("proposals", top)
+
 		for x := range w.byTriple {
 			w.cleaned[x] = true
 		}
@@ -447,11 +465,18 @@ func (w *c24World) cleanup(kind string) {
 	w.checkAll("after " + w.log[len(w.log)-1])
 }
 
-func c24DrawKey(t *rapid.T, base0 int64) c24BallotKey {
-	k := c24BallotKey{
-		h: base0 + int64(rapid.IntRange(0, 9).Draw(t, "height")),
-		r: uint64(rapid.IntRange(0, 2).Draw(t, "round")),
+// c24Round: the genesis height has one valid point only, (0,0) (base.Point.IsValid); every other height has rounds 0..2.
+func c24Round(h int64, r int) uint64 {
+	if h == int64(base.GenesisHeight) {
+		return 0
 	}
+
+	return uint64(r)
+}
+
+func c24DrawKey(t *rapid.T, base0 int64, span int) c24BallotKey {
+	k := c24BallotKey{h: base0 + int64(rapid.IntRange(0, span-1).Draw(t, "height"))}
+	k.r = c24Round(k.h, rapid.IntRange(0, 2).Draw(t, "round"))
 
 	switch rapid.IntRange(0, 2).Draw(t, "stage") {
 	case 0:
@@ -466,17 +491,24 @@ func c24DrawKey(t *rapid.T, base0 int64) c24BallotKey {
 	return k
 }
 
-func c24DrawTriple(t *rapid.T, base0 int64) c24Triple {
-	return c24Triple{
-		h:        base0 + int64(rapid.IntRange(0, 9).Draw(t, "height")),
-		r:        uint64(rapid.IntRange(0, 2).Draw(t, "round")),
-		proposer: rapid.IntRange(0, 2).Draw(t, "proposer"),
-		prev:     rapid.IntRange(0, 1).Draw(t, "prevBlock"),
-	}
+func c24DrawTriple(t *rapid.T, base0 int64, span int) c24Triple {
+	x := c24Triple{h: base0 + int64(rapid.IntRange(0, span-1).Draw(t, "height"))}
+	x.r = c24Round(x.h, rapid.IntRange(0, 2).Draw(t, "round"))
+	x.proposer = rapid.IntRange(0, 2).Draw(t, "proposer")
+	x.prev = rapid.IntRange(0, 1).Draw(t, "prevBlock")
+
+	return x
 }
 
 func (w *c24World) sequential(t *rapid.T, steps int) {
-	base0 := rapid.SampledFrom([]int64{1, 2, 33}).Draw(t, "baseHeight") // genesis (height 0) has no ballots or proposals
+	// The height window is [base0, base0+span). Low windows (base0 0 with span 1..5, i.e. newest height 0..4) are the
+	// pools of a chain right after its genesis: as long as the newest stored height is below the cleanup depth no
+	// entry is "at least depth below the newest height", so a cleanup may remove nothing; newest height 3 and 4 are
+	// the first ones where heights 0 / 0..1 become removable. The genesis point (0,0) is a valid point and neither
+	// SetBallot nor SetProposal excludes it.
+	base0 := rapid.SampledFrom([]int64{0, 0, 1, 2, 33}).Draw(t, "baseHeight")
+	span := rapid.SampledFrom([]int{1, 2, 3, 4, 5, 10, 10}).Draw(t, "heightSpan")
+	w.classes[fmt.Sprintf("window:base%d", base0)] = true
 	salt := 0
 
 	for i := 0; i < steps; i++ {
@@ -494,7 +526,7 @@ func (w *c24World) sequential(t *rapid.T, steps int) {
 
 		switch kind {
 		case "setBallot":
-			w.setBallot(c24DrawKey(t, base0), rapid.IntRange(0, 1).Draw(t, "factVariant"), rapid.IntRange(0, 2).Draw(t, "expels"))
+			w.setBallot(c24DrawKey(t, base0, span), rapid.IntRange(0, 1).Draw(t, "factVariant"), rapid.IntRange(0, 2).Draw(t, "expels"))
 		case "resetBallot": // a second ballot for a stored key: same fact signed again, or another fact
 			if len(w.ballots) == 0 {
 				continue
@@ -508,9 +540,9 @@ func (w *c24World) sequential(t *rapid.T, steps int) {
 			sort.Slice(ks, func(i, j int) bool { return ks[i].String() < ks[j].String() })
 			w.setBallot(rapid.SampledFrom(ks).Draw(t, "which"), rapid.IntRange(0, 1).Draw(t, "factVariant"), rapid.IntRange(0, 2).Draw(t, "expels"))
 		case "getBallot":
-			w.checkBallot(c24DrawKey(t, base0), "lookup")
+			w.checkBallot(c24DrawKey(t, base0, span), "lookup")
 		case "setProposal":
-			x := c24DrawTriple(t, base0)
+			x := c24DrawTriple(t, base0, span)
 			salt++
 			w.setProposal(c24MakeProposalFact(x, rapid.IntRange(0, 4).Draw(t, "nops"), fmt.Sprintf("s%d", salt)), x, "new fact")
 		case "resignProposal", "equivocateProposal":
@@ -550,7 +582,7 @@ func (w *c24World) sequential(t *rapid.T, steps int) {
 				w.r.Violation(t, "proposal-found-never-stored", "Proposal(unknown fact) finds a proposal; history: %s", w.history())
 			}
 		case "getByPoint":
-			w.checkByPoint(c24DrawTriple(t, base0), "lookup")
+			w.checkByPoint(c24DrawTriple(t, base0, span), "lookup")
 		case "cleanBallots":
 			w.cleanup("ballots")
 		case "cleanProposals":
@@ -912,7 +944,8 @@ func (w *c24World) concurrentBallots(t *rapid.T) {
 func TestC24(t *testing.T) {
 	r := ev.Start(t, "C24")
 	defer r.Finish()
-	r.Rule("real TempPool over mem leveldb. Sequential part: 14 (quick) / 24 (thorough) drawn steps over a 10-height window (base height 1, 2 or 33; rounds 0..2; " +
+	r.Rule("real TempPool over mem leveldb. Sequential part: 14 (quick) / 24 (thorough) drawn steps over a window of 1, 2, 3, 4, 5 or 10 heights (base height 0, 1, 2 or 33, so that the newest stored height is 0..4 " +
+		"(below / at / just above the cleanup depth) as well as 30+; rounds 0..2, round 0 only at the genesis height; " +
 		"INIT/ACCEPT/suffrage-confirm keys; 3 proposers x 2 previous blocks): SetBallot (new key / second ballot for a stored key, same fact signed again or another fact, 0..2 expel operations), " +
 		"Ballot, SetProposal (new fact / same fact signed again / another fact for a used position), Proposal, ProposalByPoint, ballot and proposal cleanup (hook H4, depth 3), reopen; " +
 		"after every step the touched keys, after cleanup/reopen and at the end all keys are compared with a first-writer-wins map (byte-identical re-encoding). " +
@@ -924,6 +957,7 @@ func TestC24(t *testing.T) {
 	r.Floor(100)
 	r.Assume("SetBallot calls are serialised (DefaultBallotBroadcaster.set holds a mutex; it is the only production caller); SetProposal calls are not",
 		"'newest height' of a cleanup is the newest height present in the pool being cleaned (ballots and proposals separately); the cleanup clause is one-sided (removes only ...)",
+		"while the newest height is below the depth (0..2) no entry is 'at least the depth below the newest height', so a cleanup may remove nothing; the genesis point (0,0) is a valid key (base.Point.IsValid accepts it, the pool API does not exclude it)",
 		"for a position (point, proposer, previous block) under which an equivocating proposer stored several facts, the by-point lookup may return any of the stored first proposals",
 		"'unchanged' is judged on the JSON re-encoding of the returned object (codec faithfulness is C27's subject)")
 
